@@ -8,7 +8,8 @@ EXPL = ("R16.1 no result of write_vectored / write_all_vectored / EntryIoStream:
         "Ok(0) leaves the loop with an error, Ok(n) advances by that very n before retrying, Interrupted retries without advancing, "
         "other errors are returned, success only when no bytes remain, and the io-slice list is rebuilt from the advanced slices on "
         "every iteration; R16.3 production sinks never unwrap/?-propagate stream results and write no non-counter state on error "
-        "arms; R16.4 a tee calls both inner streams on every path; R16.5 (= R01.3) no branch of the background "
+        "arms; R16.4 a tee calls both inner streams on every path; R16.6 (= R14.2 on the output buffers) whatever an entry had put into the formatter's buffers when its "
+        "write failed is discarded before the next entry uses them, on every path; R16.5 (= R01.3) no branch of the background "
         "drain loop derives from the result of writing an entry, and the consumer's error arms write only integer counters and never "
         "re-insert: an error on one entry cannot stop, skip or repeat later ones. Not decided: byte-exact slice arithmetic of advance_slices.")
 
@@ -373,6 +374,12 @@ def run(ctx):
     before = len(ctx.instances)
     c01.run(RuleView(ctx, {"R01.3": "R16.5"}))
     ctx.floor("R16.5", "error-independence obligations on the drain loop and its consumer", len([i for i in ctx.instances[before:] if i["rule"] == "R16.5"]), 4)
+    # ------------------------------------------------------------------------ R16.6 a failed write leaves nothing behind in the formatter (= R14.2 on the buffers)
+    import rules.c14 as c14
+    import rules.c02 as c02
+    before6 = len(ctx.instances)
+    c14.run(ctx, only_fields=c02.buffer_field(F), rule_prefix="R16.6")
+    ctx.floor("R16.6", "output buffers checked for reset-before-use", len([i_ for i_ in ctx.instances[before6:] if i_["rule"] == "R16.6" and "clean-at-first-use" in i_["instance"]]), 7)
     return EXPL
 
 
